@@ -5,8 +5,8 @@
 EXTENDS Bridge, TLC, Json
 CONSTANTS MaxLen, MaxK
 VARIABLES b, done
-Family == { [ch |-> c, pos |-> p, len |-> n, k |-> kk, n |-> nn] :
-              c \in {42, 111, 79}, p \in {"start", "end", "mid"}, n \in 1..MaxLen, kk \in 0..MaxK, nn \in 0..1 }
+Family == { [ch |-> c, pos |-> p, len |-> n, k |-> kk, n |-> nn, dir |-> d] :
+              c \in {42, 111, 79}, p \in {"start", "end", "mid"}, n \in 1..MaxLen, kk \in 0..MaxK, nn \in 0..1, d \in {"h", "v"} }
 Init == b \in Family /\ done = FALSE
 Next == ~done /\ done' = TRUE /\ UNCHANGED b
 Rows == BulletRows(b)
